@@ -16,30 +16,33 @@ theorem optStep_some {l n : String} {sh : Bool} {st : List Arg} {v : String} (h 
   split <;> simp_all
 
 theorem optStep_err {l n : String} {sh : Bool} {st : List Arg} {e : PErr} (h : (optStep l n sh st).1 = .error e) :
-    e = .other := by
+    e ≠ .diverge := by
   unfold optStep at h
-  split at h <;> simp_all
+  split at h <;> simp at h
+  subst h; simp
 
-theorem makeValue_err {ty : VTy} {s : String} {e : PErr} (h : makeValue ty s = .error e) : e = .other := by
+theorem makeValue_err {sh : Option String} {lg : String} {ty : VTy} {s : String} {e : PErr}
+    (h : makeValue sh lg ty s = .error e) : e ≠ .diverge := by
   unfold makeValue at h
-  split at h <;> simp_all
+  split at h <;> simp at h
+  subst h; simp
 
-theorem makeOrDefault_err {d : Option Val} {ty : VTy} {cur : List Arg} {o : Option String} {e : PErr}
-    (h : makeOrDefault d ty cur o = .error e) : e ≠ .diverge := by
+theorem makeOrDefault_err {sh : Option String} {lg : String} {d : Option Val} {ty : VTy} {cur : List Arg} {o : Option String} {e : PErr}
+    (h : makeOrDefault sh lg d ty cur o = .error e) : e ≠ .diverge := by
   unfold makeOrDefault at h
   split at h
-  · rw [makeValue_err h]; simp
-  · split at h <;> simp_all
+  · exact makeValue_err h
+  · split at h <;> simp at h
     subst h; simp
 
-theorem combineResults_err {d : Option Val} {ty : VTy} {cur : List Arg} {lo so : Option String} {e : PErr}
-    (h : combineResults d ty cur lo so = .error e) : e ≠ .diverge := by
+theorem combineResults_err {sh : Option String} {lg : String} {d : Option Val} {ty : VTy} {cur : List Arg} {lo so : Option String} {e : PErr}
+    (h : combineResults sh lg d ty cur lo so = .error e) : e ≠ .diverge := by
   unfold combineResults at h
   split at h
   · exact makeOrDefault_err h
   · split at h
     · simp at h; subst h; simp
-    · rw [makeValue_err h]; simp
+    · exact makeValue_err h
 
 theorem parseFlag_ne_diverge (l : String) (sh : Option String) (lg : String) (act inact : Val) (st : List Arg) :
     parseFlag l sh lg act inact st ≠ .error .diverge := by
@@ -55,15 +58,15 @@ theorem parseOpt_ne_diverge (l : String) (sh : Option String) (lg : String) (d :
   | none =>
     simp only
     split
-    · rename_i e he; rw [optStep_err he]; simp
+    · rename_i e he; intro h; injection h with h; exact optStep_err he h
     · split
       · simp
       · rename_i e he; intro h; injection h with h; exact makeOrDefault_err he h
   | some s =>
     simp only
     split
-    · rename_i e he; rw [optStep_err he]; simp
-    · rename_i e he; rw [optStep_err he]; simp
+    · rename_i e he; intro h; injection h with h; exact optStep_err he h
+    · rename_i e he; intro h; injection h with h; exact optStep_err he h
     · split
       · simp
       · rename_i e he; intro h; injection h with h; exact combineResults_err he h
@@ -213,10 +216,10 @@ theorem parse_shrinks {f : Nat} {p : OP} {st : List Arg} {c : Ctx} {st' : List A
 theorem OP.size_pos (p : OP) : 0 < p.size := by
   cases p <;> simp [OP.size]
 
-theorem findSub_props : ∀ (subs : List (String × String × OP)) {name tag : String} {q : OP},
+theorem findSub_props : ∀ (subs : Subs) {name tag : String} {q : OP},
     findSub name subs = some (tag, q) → q.size ≤ sizeSubs subs ∧ (wfManySubs subs = true → q.wfMany = true)
   | [], _, _, _, h => by simp [findSub] at h
-  | (n, t, p) :: r, name, tag, q, h => by
+  | (n, t, hh, p) :: r, name, tag, q, h => by
     unfold findSub at h
     split at h
     · simp at h; obtain ⟨rfl, rfl⟩ := h
